@@ -95,6 +95,29 @@ def deep_baseline():
     return _DEEP[0]
 
 
+def project(obs, exp):
+    """observed value restricted to the fields the reference defines (additional fields of a mapping are not judged; tuples are
+    lists)"""
+    if isinstance(exp, dict) and hasattr(obs, "items"):
+        return {k: (project(obs[k], exp[k]) if k in obs else "<missing>") for k in exp}
+    if isinstance(exp, list) and isinstance(obs, (list, tuple)) and len(obs) == len(exp):
+        return [project(o, e) for o, e in zip(obs, exp)]
+    if isinstance(obs, tuple):
+        return list(obs)
+    return obs
+
+
+def _same_holder(parent, holder):
+    """a remembered child may carry no parent link, or a link to a node with the holder's content (object identity is an
+    implementation detail: equal nodes may share remembered children)"""
+    if parent is None or parent is holder:
+        return True
+    try:
+        return hdscen.canon_impl_node(parent) == hdscen.canon_impl_node(holder)
+    except Exception:
+        return False
+
+
 class World:
     """the shared objects of one history + the reference-side bookkeeping"""
 
@@ -167,8 +190,8 @@ class World:
             n = self.node([H + 44, H, H])
             st, d = attempt(w.node_extended_keys, n)
             rn = ref_node([H + 44, H, H])
-            return (d if st == "ok" else ["exc", d]), {"path": "m/44'/0'/0'", "pub": hd.xpub(rn, hd.version_for("pub", self.t, 44)),
-                                                       "prv": hd.xprv(rn, hd.version_for("prv", self.t, 44))}
+            exp = {"path": "m/44'/0'/0'", "pub": hd.xpub(rn, hd.version_for("pub", self.t, 44)), "prv": hd.xprv(rn, hd.version_for("prv", self.t, 44))}
+            return (project(d, exp) if st == "ok" else ["exc", d]), exp
         if k == "bip85hex":
             st, v = attempt(w.bip85.hex, 16, 0)
             return (v if st == "ok" else ["exc", v]), hd.bip85_hex(master_ref(), 16, 0)
@@ -193,7 +216,8 @@ class World:
             return "failed-or-not", "failed-or-not"
         if k == "generate":
             st, v = attempt(w.generate, 0, (0, 1))
-            return (v if st == "ok" else ["exc", v]), hd.paper_generate(master_ref(), self.t, 0, (0, 1), MN, PW)
+            exp = hd.paper_generate(master_ref(), self.t, 0, (0, 1), MN, PW)
+            return (project(v, exp) if st == "ok" else ["exc", v]), exp
         raise ValueError(op)
 
     def invariants(self):
@@ -205,10 +229,10 @@ class World:
         seen = 0
         while stack:
             n, path = stack.pop()
-            for c in (getattr(n, "children", None) or ()):
+            for c in hdscen.kids(n):
                 seen += 1
                 cp = path + [c.index]
-                if getattr(c, "parent", n) is not n or c.depth != n.depth + 1:
+                if not _same_holder(getattr(c, "parent", None), n) or c.depth != n.depth + 1:
                     return "child %s of %s has wrong parent link/depth" % (c, n)
                 if hdscen.canon_impl_node(c) != ref_canon(cp):
                     return "children list of %s holds a node at index %d that is not its child" % (hd.path_str(path), c.index)
@@ -248,6 +272,61 @@ class Histories:
         return {"canon": hist, "viols": viols, "label": label}
 
 
+# ---- companions: several wallets in ONE process that hold the SAME key material under different metadata / networks
+_CK, _CC = 0x00c0ffee00000000000000000000000000000000000000000000000000005eed, "c3" * 32
+COMPANIONS = [
+    {"k": _CK, "chain": _CC, "pub": True, "depth": 3, "index": H, "pfp": "0a0b0c0d"},                       # 0 account xpub, mainnet
+    {"k": _CK, "chain": _CC, "pub": True, "depth": 3, "index": H, "pfp": "0a0b0c0d", "testnet": True},      # 1 the same key imported as tpub
+    {"k": _CK, "chain": _CC, "pub": True},                                                                   # 2 the same key as a depth-0 root
+    {"k": _CK, "chain": _CC, "depth": 3, "index": H, "pfp": "0a0b0c0d"},                                    # 3 its private twin
+    {"k": _CK, "chain": _CC, "depth": 3, "index": H, "pfp": "0a0b0c0d", "testnet": True},                   # 4 private twin, testnet
+    {"k": _CK, "chain": "3c" * 32, "pub": True, "depth": 3, "index": H, "pfp": "0a0b0c0d"},                 # 5 same key, other chain code
+]
+COMP_OPS = [[v, rq] for v in range(len(COMPANIONS)) for rq in ("ckd0", "ckd1", "path01", "addr0")]
+
+
+class Companions:
+    """requests on wallets imported from extended keys that share key bytes: each answer (node fields, path label, serialised
+    key with ITS network's version, address with ITS network's prefix) is a function of that wallet's own root alone.
+    canon = the history."""
+
+    def ops(self, hist):
+        return COMP_OPS
+
+    def run(self, hist):
+        from btc_hd_wallet.base_wallet import BaseWallet
+        ws = {}
+        viols, label = [], "init"
+        for n, (v, rq) in enumerate(hist):
+            root = COMPANIONS[v]
+            if v not in ws:
+                ws[v] = BaseWallet.from_extended_key(hdscen.root_xkey(root))
+            w = ws[v]
+            t = root.get("testnet", False)
+            mark = "M" if root.get("pub") else "m"
+            path = {"ckd0": [0], "ckd1": [1], "path01": [0, 1], "addr0": [0]}[rq]
+            rn = hd.derive(hdscen.ref_root(root), path)
+            xp = hd.xpub(rn, hd.version_for("pub", t, 44))
+            if rq in ("ckd0", "ckd1"):
+                st, got = attempt(lambda: (lambda c: [hdscen.canon_impl_node(c), str(c), c.extended_public_key()])(w.master.ckd(path[0])))
+                exp = [hdscen.canon_ref_node(rn), hd.path_str(path, mark), xp]
+            elif rq == "path01":
+                st, got = attempt(lambda: (lambda c: [hdscen.canon_impl_node(c), str(c), c.extended_public_key()])(w.by_path(mark + "/0/1")))
+                exp = [hdscen.canon_ref_node(rn), hd.path_str(path, mark), xp]
+            else:
+                st, got = attempt(lambda: [w.p2wpkh_address(w.master.ckd(0)), w.p2pkh_address(w.master.ckd(0))])
+                exp = [hd.ADDR["p2wpkh"](rn.K, t), hd.ADDR["p2pkh"](rn.K, t)]
+            if n == len(hist) - 1:
+                if st != "ok":
+                    viols.append(V("%s:companions:%s:raised" % (P, rq), "after %r in the same process, %s on wallet #%d raised %s" % (hist[:-1], rq, v, got)))
+                elif got != exp:
+                    viols.append(V("%s:companions:%s:differs-from-stateless-result" % (P, rq),
+                                   "after %r in the same process, %s on wallet #%d (same key bytes as the others, own metadata/network) is not what its own root gives" % (
+                                       hist[:-1], rq, v), str(got)[:300], str(exp)[:300]))
+                label = "violation" if viols else "equals-stateless-result:" + rq
+        return {"canon": hist, "viols": viols, "label": label}
+
+
 # ------------------------------------------------------------------------------------------------ E3: schedules
 STATE_FILES = ["bip32.py", "base_wallet.py", "paper_wallet.py", "bip85.py", "wallet_utils.py"]
 
@@ -283,12 +362,12 @@ def harness(name):
             "bpDeep": lambda: c(w.by_path("m/0/1/2/3/4/5'/6")), "bpDeep2": lambda: c(w.by_path("m/1/1/2/3/4/7/8'")),
             "children": lambda: [c(x) for x in m0.generate_children((0, 2))],
             "gen": gen_body,
-            "xkeys": lambda: w.node_extended_keys(acct),
+            "xkeys": lambda: project(w.node_extended_keys(acct), {"path": 0, "pub": 0, "prv": 0}),
             "wif0": lambda: w.bip85.wif(0), "wif1": lambda: w.bip85.wif(1), "hex": lambda: w.bip85.hex(16, 0),
             "wasabi": lambda: _wasabi_fields(w.wasabi_json()),
             "p2wpkh": lambda: w.p2wpkh_address(m0), "p2sh_p2wsh": lambda: w.p2sh_p2wsh_address(m0),
             "p2pkh0": lambda: w.p2pkh_address(m0), "p2pkh1": lambda: w.p2pkh_address(m1),
-            "generate": lambda: w.generate(1, (0, 1)),
+            "generate": lambda: project(w.generate(1, (0, 1)), _gen_exp()),
             "wifnode": lambda: m0.private_key.wif(testnet=False),
             "xprvnode": lambda: [m0.extended_private_key(), m0.extended_public_key()],
             "parsexpub": lambda: c(type(master).__mro__[1].parse(xpub_m)),
@@ -305,9 +384,9 @@ def harness(name):
             stack = [(master, [])]
             while stack and not bad:
                 n, path = stack.pop()
-                for ch in (getattr(n, "children", None) or ()):
+                for ch in hdscen.kids(n):
                     cp = path + [ch.index]
-                    if getattr(ch, "parent", n) is not n or c(ch) != ref_canon_fast(cp):
+                    if not _same_holder(getattr(ch, "parent", None), n) or c(ch) != ref_canon_fast(cp):
                         bad = "children list of %s holds a wrong node at index %d" % (hd.path_str(path), ch.index)
                         break
                     stack.append((ch, cp))
@@ -440,6 +519,15 @@ def expected_op(op):
     raise ValueError(op)
 
 
+_GEN_EXP = []
+
+
+def _gen_exp():
+    if not _GEN_EXP:
+        _GEN_EXP.append(hd.paper_generate(master_ref(), False, 1, (0, 1), None, None))
+    return _GEN_EXP[0]
+
+
 def expected_results(name):
     return [expected_op(o) for o in name.split("|")]
 
@@ -509,6 +597,11 @@ def execute(case):
     if case.get("k") == "schedule":
         vs = replay_schedule(case)
         return R("violation" if vs else "schedule-ok", viols=vs)
+    if "hist" in case and case.get("layer", "").startswith("companion"):
+        r = isolated(Companions().run, case["hist"])
+        for v in r["viols"]:
+            v["case"] = case
+        return R(r["label"], viols=r["viols"])
     if "hist" in case:
         r = isolated(Histories(OPS, case.get("layer", "").endswith("testnet")).run, case["hist"])
         for v in r["viols"]:
@@ -589,6 +682,7 @@ def explore_plan(ctx, plan):
 def warm():
     """fill the REFERENCE caches in the parent so that forked workers inherit them. Nothing of the implementation is
     executed here: the parent stays pristine, so every forked child starts from the package as imported."""
+    _gen_exp()
     if not _XPRV:
         _XPRV.append(hd.xprv(master_ref()))
     for o in TOPS:
@@ -659,6 +753,9 @@ def run(ctx):
     sizes = (1, 2, 3, 4, 5, 8, 9, 16, 17, 20, 21, 32, 33) + ((64, 65) if ctx.thorough else ())
     eviction_probe(ctx, "api-call-histories+ckd-revisits", Histories(OPS), lambda i: ["ckd", i if i % 2 == 0 else H + i], sizes=sizes)
     eviction_probe(ctx, "api-call-histories+by_path-revisits", Histories(OPS), lambda i: ["by_path", "m/0/%d" % i], sizes=sizes)
+    # wallets that share key bytes under different metadata / networks, in one process (24 requests; depth 2, thorough 3)
+    bfs(ctx, "companion-wallet-histories", Companions(), 3 if ctx.thorough else 2, chunk=8)
+    long_histories(ctx, "companion-wallet-histories+long", Companions(), rotations=len(COMP_OPS) if ctx.thorough else 6, rounds=1)
     if ctx.thorough:
         # depth 4 on the sub-alphabet that touches shared mutable objects (children lists, generators, bip85)
         sub = [o for o in OPS if o[0] in ("by_path", "ckd", "children", "genA", "genB", "bip85wif", "addr")][:11]
